@@ -527,6 +527,7 @@ def cases(tier, seed):
     for name in public_helpers():
         out.append(("helper", name))
     out.append(("rshift-callables",))
+    out.append(("constant-params",))
     return out
 
 
@@ -539,6 +540,55 @@ class Acc:
     def __call__(self, x):
         self.seen.append(x)
         return ("acc", len(self.seen), x)
+
+
+def check_constant_params(res):
+    """Step parameters are evaluated at evaluation time - constants included: a step that modifies a (mutable)
+    constant parameter it was handed must not change what the next evaluation of the same long-lived pipeline
+    computes.  Decorated steps with constant defaults, helper steps with constant operands, nested in pipelines."""
+    import labrea.functions as F
+    from labrea import Option, Value, pipeline_step
+    from labrea.pipeline import Pipeline
+
+    fails = []
+
+    def collect(x, acc=[]):  # noqa: B006 - the point
+        acc.append(x)
+        return list(acc)
+
+    def collect2(x, acc=[], tag=Option("T", "t")):  # noqa: B006
+        acc.append((tag, x))
+        return list(acc)
+
+    def scribble(v):
+        v.append("scribbled")
+        return list(v)
+
+    table = {"a": [1], "b": [2]}
+    subjects = {
+        "step with a constant list parameter": (lambda: pipeline_step(collect), lambda x: [x]),
+        "step with a constant list and an option parameter": (lambda: pipeline_step(collect2), lambda x: [("t", x)]),
+        "pipeline(step with a constant list parameter) + identity": (lambda: Pipeline() + pipeline_step(collect) + Pipeline(), lambda x: [x]),
+        "get_from(constant table) + step that modifies what it gets": (lambda: F.get_from({"a": [1], "b": [2]}) + scribble, lambda x: table[x] + ["scribbled"]),
+    }
+    inputs = {"get_from(constant table) + step that modifies what it gets": ["a", "b", "a", "a"]}
+    for name, (make_p, py) in subjects.items():
+        p = make_p()  # ONE long-lived object
+        xs = inputs.get(name, [1, 2, 1])
+        for mode in ("rshift", "transform"):
+            for x in xs:
+                res["evaluations"] += 1
+                if mode == "rshift":
+                    got = observe(None, lambda: (Value(copy.deepcopy(x)) >> p).evaluate({}))
+                else:
+                    got = observe(None, lambda: p.transform(copy.deepcopy(x), {}))
+                want = py(x)
+                if not got.ok or freeze(got.value) != freeze(want):
+                    if not any(f["sig"].startswith(f"C13|constant-params|{name}") for f in fails):
+                        fails.append({"sig": f"C13|constant-params|{name}|{mode}", "what": f"{name}: a later evaluation of the same pipeline ({mode}) sees a constant parameter as an earlier evaluation left it",
+                                      "detail": f"input {x!r}: {got!r}, a fresh evaluation of the parameters gives {want!r}", "case": ("constant-params",)})
+    res["nontrivial"] += len(subjects)
+    return fails
 
 
 def check_rshift_callables(res):
@@ -573,6 +623,9 @@ def run_case(case):
     res = {"failures": [], "evaluations": 0, "nontrivial": 0, "samples": [], "uncovered": []}
     if case[0] == "seq":
         res["failures"] = check_sequence(tuple(case[1]), res)
+        return res
+    if case[0] == "constant-params":
+        res["failures"] = check_constant_params(res)
         return res
     if case[0] == "rshift-callables":
         res["failures"] = check_rshift_callables(res)
